@@ -122,7 +122,7 @@ fn h_ni_par_lanes() {
 // mix_columns == MixColumns, one symbolic column at a time (the other three columns zero): AESIMC acts on each 4-byte
 // column independently (its model is FIPS-197 InvMixColumns, per column by definition), so the full-block statement is
 // the conjunction of the four single-column ones.
-// @ob name=h_ni_mixcol_percolumn props=C17,C20 cfg=hazmat solver=z3 fn=aes::ni::hazmat::mix_columns timeout=900
+// @ob name=h_ni_mixcol_percolumn props=C17,C20 cfg=hazmat tier=thorough solver=z3 fn=aes::ni::hazmat::mix_columns timeout=3600
 #[kani::proof]
 #[kani::stub(core::arch::x86_64::_mm_aesimc_si128, x86_models::aesimc)]
 #[kani::unwind(20)]
